@@ -407,3 +407,159 @@ Section SameSystem.
     solve (FRv objs (@F_mapping ROps c objs n s eps) H) (@D_mapping ROps c objs d s).
   Proof. now rewrite F_wt_eq_F_mapping_list, D_wt_eq_D_mapping_list. Qed.
 End SameSystem.
+
+(* ================================================================== 5. the model meets the EXECUTABLE specification of the correspondence
+   check (Model/C04.v B_spec / D_spec / F_spec / mapped_spec: conv_full and plain sums, no frames, no preload, no blocks) *)
+Lemma combined_no_blurring_image m bm (img : list R) q : @combined ROps m bm img [] q = @combined ROps m [] img [] q.
+Proof. unfold combined. destruct (negb (mz m q)); [reflexivity|]. now rewrite !P3.lookup_nil. Qed.
+
+Lemma unreg_flags_length objs : length (@unreg_flags ROps objs) = tp objs.
+Proof.
+  induction objs as [|o t IH]; [reflexivity|]. unfold unreg_flags in *. cbn [flat_map]. rewrite app_length, repeat_length, IH.
+  now rewrite tp_cons.
+Qed.
+Lemma nth_repeat_lt {A} (x d : A) p i : (i < p)%nat -> nth i (repeat x p) d = x.
+Proof. revert i. induction p as [|p IH]; intros [|i] H; cbn; try lia; auto. apply IH. lia. Qed.
+Lemma unreg_flags_nth : forall objs k la, (k < length objs)%nat -> (la < params (ob objs k))%nat ->
+  nth (off objs k + la) (@unreg_flags ROps objs) false = negb (has_reg (ob objs k)).
+Proof.
+  induction objs as [|o t IH]; intros k la Hk Hla; [cbn in Hk; lia|].
+  unfold unreg_flags. cbn [flat_map]. fold (@unreg_flags ROps t). destruct k as [|k].
+  - unfold off, ob in *. cbn [firstn nth] in *. change (tp []) with 0%nat. cbn [Nat.add].
+    rewrite app_nth1 by (now rewrite repeat_length). now apply nth_repeat_lt.
+  - rewrite off_cons. unfold ob in *. cbn [nth] in *. cbn [length] in Hk.
+    rewrite app_nth2 by (rewrite repeat_length; lia). rewrite repeat_length.
+    replace (params o + off t k + la - params o)%nat with (off t k + la)%nat by lia. apply IH; [lia | exact Hla].
+Qed.
+
+Section MeetsSpec.
+  Variables (m : mask) (K : RK) (c : @convolver ROps).
+  Hypothesis Hrect : rectb m = true.
+  Hypothesis Hc : @convolver_init ROps m K = Ok c.
+  Notation n := (length (unmasked m)).
+  Hypothesis Hn : (0 < n)%nat.
+
+  (* a blurred matrix, row i: the true 2-D convolution of every column placed on the mask, read at the i-th unmasked pixel *)
+  Lemma convolve_matrix_row (M : @mat ROps) P i : length M = n -> ncols M = P -> (i < n)%nat ->
+    nth i (@convolve_matrix ROps c M) [] =
+    map (fun p => @conv_full ROps (@combined ROps m [] (@column ROps M p) []) K (Uat m i)) (seq 0 P).
+  Proof.
+    intros HL HP Hi. pose proof (shape_convolve_matrix c M) as [HLc HRc].
+    apply (P3.nth_ext_len _ _ 0).
+    - rewrite HRc by (rfix; lia). now rewrite map_length, seq_length.
+    - intros p Hp. rewrite HRc in Hp by (rfix; lia). rewrite HP in Hp.
+      rewrite (nth_map_seq _ P p) by exact Hp.
+      pose proof (P3.convolve_matrix_is_conv_full m K c M p Hrect Hc HL) as Hcol.
+      assert (Hp' : (p < length (hd [] M))%nat) by (unfold ncols in HP; rfix; lia). specialize (Hcol Hp').
+      assert (E : nth p (nth i (@convolve_matrix ROps c M) []) 0 = nth i (@column ROps (@convolve_matrix ROps c M) p) 0).
+      { rewrite nth_column, mget_R. reflexivity. }
+      etransitivity; [exact E|]. rewrite Hcol. rewrite (P3.nth_map_lt _ _ _ (0%Z, 0%Z)) by exact Hi. fold (Uat m i).
+      apply P3.conv_full_ext. intros ab _. apply combined_no_blurring_image.
+  Qed.
+  Lemma opmat_row_spec o i : wf_obj c n o -> (i < n)%nat -> nth i (opmat c o) [] = nth i (@B_spec_obj ROps m K o) [].
+  Proof.
+    intros W Hi. pose proof W as (_ & Hsh & Hrest).
+    assert (Hconv : forall M, opmat c o = @convolve_matrix ROps c M -> length M = n /\ ncols M = params o).
+    { intros M E. rewrite E in Hsh. pose proof (shape_convolve_matrix c M) as [HLc HRc]. destruct Hsh as [HL HR].
+      split; [rfix; lia|]. specialize (HR 0%nat Hn). rewrite HRc in HR by (rfix; lia). exact HR. }
+    assert (Hrow : forall M, opmat c o = @convolve_matrix ROps c M ->
+              nth i (@convolve_matrix ROps c M) [] =
+              nth i (map (fun t => map (fun p => @conv_full ROps (@combined ROps m [] (@column ROps M p) []) K t) (seq 0 (params o))) (unmasked m)) []).
+    { intros M E. destruct (Hconv M E) as [HL HP].
+      rewrite (convolve_matrix_row M (params o) i HL HP Hi).
+      rewrite (P3.nth_map_lt _ _ _ (0%Z, 0%Z)) by exact Hi. reflexivity. }
+    destruct o as [e M P reg|M [ov|] P reg]; cbn [opmat B_spec_obj params] in *.
+    - now apply Hrow.
+    - reflexivity.
+    - now apply Hrow.
+  Qed.
+
+  Variables (objs : list (@lobj ROps)).
+  Hypothesis Hwf : forall o, In o objs -> wf_obj c n o.
+
+  (* operated_mapping_matrix = the column-wise PSF-blurred mapping matrix of all objects, in object order (equal lists) *)
+  Theorem op_matrix_is_B_spec : op_matrix c objs n = @B_spec ROps m K objs.
+  Proof.
+    unfold op_matrix, hstack, B_spec. apply map_ext_in. intros i Hi. apply in_seq in Hi.
+    rewrite flat_map_concat_map, map_map. f_equal. apply map_ext_in. intros o Ho. apply opmat_row_spec; [now apply Hwf | lia].
+  Qed.
+
+  Variables (s : list R) (eps : R).
+  Hypothesis Hnz : forall i, (i < n)%nat -> nth i s 0 <> 0.
+  Let Hsh' : forall o, In o objs -> shape n (params o) (opmat c o).
+  Proof. intros o Ho. apply wf_obj_shape. now apply Hwf. Qed.
+
+  (* curvature_matrix (mapping class) = F_spec: B^T N^-1 B plus eps exactly on the diagonal entries flagged "no regularization" *)
+  Theorem F_mapping_is_F_spec a b : (a < tp objs)%nat -> (b < tp objs)%nat ->
+    mget (@F_mapping ROps c objs n s eps) a b =
+    mget (@F_spec ROps (@B_spec ROps m K objs) s (@unreg_flags ROps objs) eps) a b.
+  Proof.
+    intros Ha Hb. rewrite <- op_matrix_is_B_spec. pose proof (shape_op_matrix c objs n Hsh') as HB.
+    set (B := op_matrix c objs n) in *.
+    assert (HncB : ncols B = tp objs) by (apply (ncols_shape _ n); auto).
+    assert (HlB : length B = n) by (now destruct HB).
+    unfold F_mapping. fold B. rewrite curv_mapping_spec; rewrite ?HlB, ?HncB; auto using noreg_NoDup, noreg_bound.
+    unfold F_spec. rewrite unreg_flags_length. rewrite mget_R.
+    rewrite (nth_map_seq _ (tp objs) a) by exact Ha. rewrite (nth_map_seq _ (tp objs) b) by exact Hb.
+    rewrite sumT_sumR, HlB.
+    assert (Esum : sumR (map (fun i => mget B i a * mget B i b / (nth i s 0 * nth i s 0)) (seq 0 n)) =
+                   sumR (map (fun x => div ROps (mul ROps (mget B x a) (mget B x b)) (@sq ROps (@nthT ROps s x))) (seq 0 n))).
+    { apply sumR_map_ext. intros i _. unfold sq, nthT. ropen. reflexivity. }
+    assert (Eflag : existsb (Nat.eqb a) (@noreg_index_list ROps objs) = nth a (@unreg_flags ROps objs) false).
+    { destruct (locate_exists objs a Ha) as (k & la & Hk & Hla & ->). rewrite unreg_flags_nth by assumption.
+      destruct (has_reg (ob objs k)) eqn:R; cbn [negb].
+      - destruct (existsb _ _) eqn:Ex; auto. apply existsb_exists in Ex. destruct Ex as [x [Hx Ex]]. apply Nat.eqb_eq in Ex. subst x.
+        apply noreg_In in Hx. destruct Hx as (k' & la' & Hk' & Hla' & R' & Heq).
+        assert (k' = k) by (apply (locate_range objs k k' la (off objs k + la)); auto; lia). subst k'. congruence.
+      - apply existsb_exists. exists (off objs k + la)%nat. split; [|apply Nat.eqb_refl]. apply noreg_In. exists k, la. auto. }
+    cbn [andb]. rewrite Eflag, Esum. destruct (Nat.eqb a b && nth a (@unreg_flags ROps objs) false); ropen; lra.
+  Qed.
+  (* mapped_reconstructed_data (mapping class) = mapped_spec: row i of that matrix times the reconstruction *)
+  Theorem mapped_mapping_is_mapped_spec (r : list R) i : length r = tp objs -> (i < n)%nat ->
+    nth i (@mapped_mapping ROps c objs n r) 0 = nth i (@mapped_spec ROps (@B_spec ROps m K objs) r) 0.
+  Proof.
+    intros Hr Hi. rewrite <- op_matrix_is_B_spec. pose proof (shape_op_matrix c objs n Hsh') as [HBl HBr].
+    rewrite mapped_mapping_is_stacked by auto.
+    unfold mapped_spec. rewrite (P3.nth_map_lt _ _ _ []) by (rfix; lia). rewrite sumT_sumR. rfix.
+    rewrite (combine_nth_map _ _ 0 0 (tp objs)) by (auto; apply HBr; exact Hi).
+    rewrite map_map. apply sumR_map_ext. intros a _. cbn [fst snd]. ropen. now rewrite mget_R.
+  Qed.
+  Variable d : list R.
+  Hypothesis Hd : length d = n.
+  (* data_vector (mapping class) = D_spec of that matrix: D[p] = sum_i B[i][p] d_i / sigma_i^2 *)
+  Theorem D_mapping_is_D_spec p : (p < tp objs)%nat ->
+    nth p (@D_mapping ROps c objs d s) 0 = nth p (@D_spec ROps (@B_spec ROps m K objs) d s (tp objs)) 0.
+  Proof.
+    intros Hp. rewrite <- op_matrix_is_B_spec. pose proof (shape_op_matrix c objs n Hsh') as HB.
+    assert (HncB : ncols (op_matrix c objs n) = tp objs) by (apply (ncols_shape _ n); auto).
+    unfold D_mapping. rfix. rewrite Hd. rewrite dv_blurred_spec by (rewrite HncB; exact Hp).
+    unfold D_spec. rewrite (nth_map_seq _ (tp objs) p) by exact Hp. rewrite sumT_sumR.
+    apply sumR_map_ext. intros i _. unfold sq, nthT, zero. ropen. rewrite !mget_R. unfold Rdiv. ring.
+  Qed.
+End MeetsSpec.
+
+Section MeetsSpecWTilde.
+  Variables (m : mask) (K : RK) (c : @convolver ROps).
+  Hypothesis Hrect : rectb m = true.
+  Hypothesis Hc : @convolver_init ROps m K = Ok c.
+  Notation n := (length (unmasked m)).
+  Variables (objs : list (@lobj ROps)) (d s : list R) (eps : R).
+  Hypothesis Hn : (0 < n)%nat.
+  Hypothesis Hd : length d = n.
+  Hypothesis Hs : length s = n.
+  Hypothesis Hpos : forall i, (i < n)%nat -> 0 < nth i s 0.
+  Hypothesis Hwf : forall o, In o objs -> wf_obj c n o.
+  (* the w-tilde class meets the same executable specification *)
+  Theorem D_wt_is_D_spec p : (p < tp objs)%nat ->
+    nth p (@D_wt ROps c m K objs d s) 0 = nth p (@D_spec ROps (@B_spec ROps m K objs) d s (tp objs)) 0.
+  Proof.
+    intros Hp. rewrite (D_wt_eq_D_mapping_full m K c Hrect Hc) by (auto; now apply pos_nonzero).
+    apply (D_mapping_is_D_spec m K c Hrect Hc Hn objs Hwf); auto.
+  Qed.
+  Theorem F_wt_is_F_spec a b : (a < tp objs)%nat -> (b < tp objs)%nat ->
+    mget (@F_wt ROps c m K objs s eps) a b = mget (@F_spec ROps (@B_spec ROps m K objs) s (@unreg_flags ROps objs) eps) a b.
+  Proof.
+    intros Ha Hb. rewrite (F_wt_eq_F_mapping_full m K c Hrect Hc) by auto.
+    apply (F_mapping_is_F_spec m K c Hrect Hc Hn objs Hwf); auto. now apply pos_nonzero.
+  Qed.
+End MeetsSpecWTilde.
